@@ -454,8 +454,12 @@ def run_histories(ctx, hists, tag):
     if rcs != 0 or len(S) != len(flat):
         raise vc.BuildError("spec driver failed rc=%d (%d lines for %d): %s" % (rcs, len(S), len(flat), "\n".join(S[-5:])))
     Rl = [""] * len(flat)
+    PRE.clear()
     for l in R:
         m = re.match(r"^(\d+) (.*)$", l)
+        if m and m.group(2).startswith("pre "):
+            PRE[int(m.group(1)) - 1] = m.group(2)[4:]
+            continue
         if m and 1 <= int(m.group(1)) <= len(flat) and not Rl[int(m.group(1)) - 1]:
             Rl[int(m.group(1)) - 1] = m.group(2)
     S = [l.split(" ", 1)[1] if " " in l else l for l in S]
@@ -470,8 +474,14 @@ def violations_of(S, lo, hi):
     return [(i, S[i].split()[1].split(",")) for i in range(lo, hi) if S[i].startswith("VIOLATION")]
 
 
-def sig_of(line, codes):
-    return "%s:%s" % (line.split()[0], "+".join(CLAUSE.get(c, c) for c in codes))
+PRE = {}   # line index -> context printed by the harness before a seek/read ran (for crash signatures)
+
+
+def sig_of(line, codes, idx=None):
+    s = "%s:%s" % (line.split()[0], "+".join(CLAUSE.get(c, c) for c in codes))
+    if codes == ["9"] and idx in PRE:
+        s += ":" + PRE[idx].replace(" ", ":")
+    return s
 
 
 def shrink(ctx, hist, want_sig, limit=60):
@@ -479,7 +489,7 @@ def shrink(ctx, hist, want_sig, limit=60):
     the wanted signature"""
     def fails(h):
         flat, R, S = run_histories(ctx, [h], "shrink")
-        return any(sig_of(flat[i], c) == want_sig for i, c in violations_of(S, 0, len(flat)))
+        return any(sig_of(flat[i], c, i) == want_sig for i, c in violations_of(S, 0, len(flat)))
     cur = list(hist)
     n = 0
     chunk = max(1, (len(cur) - 1) // 2)
@@ -507,7 +517,7 @@ def report(ctx, hist, flat, R, S, lo, hi, seen_sigs, budget):
     """turn the violations of one history into VIOLATION / KNOWN-FINDING lines"""
     vs = violations_of(S, lo, hi)
     for i, codes in vs:
-        sig = sig_of(flat[i], codes)
+        sig = sig_of(flat[i], codes, i)
         if sig in seen_sigs:
             continue
         seen_sigs.add(sig)
